@@ -261,8 +261,10 @@ ENGINE = {"inputs": [{"name": "X", "terms": [("Triangle", "a", 0.0, 0.25, 0.75),
                       "rules": ["if X is a then O is a and P is a", "if X is b or Y is a then O is b with 0.5", "if Y is b then P is b"]}]}
 
 
-def ob_rows(headers, inputs, outputs, via, label):
-    """every exported row holds the inputs of its grid point and exactly the outputs a separate scalar process() gives"""
+def ob_rows(headers, inputs, outputs, via, label, reconf=False):
+    """every exported row holds the inputs of its grid point and exactly the outputs a separate scalar process() gives.
+    reconf: the exporter is constructed under one decimals setting / separator / switches and reconfigured through the settings and its
+    attributes before it writes: number format, separator, header and columns are those in force at the time of writing"""
 
     def run(ob):
         fl = install()
@@ -279,18 +281,20 @@ def ob_rows(headers, inputs, outputs, via, label):
             return "\n".join([regeng.PY_BUILD, f"spec = {regeng.spec_literal(ENGINE, lit, lambda x: x)}", f"rows = {lit(rows)}",
                               "import warnings, io, numpy; warnings.simplefilter('ignore')", "e = build_engine(spec); captured = {}; orig = numpy.savetxt",
                               "numpy.savetxt = lambda w, X, **kw: captured.update(X=numpy.array(X, dtype=float), kw=kw)",
-                              f"ex = fl.FldExporter(headers={headers}, input_values={inputs}, output_values={outputs})",
+                              (f"ex = fl.FldExporter(headers={headers}, input_values={inputs}, output_values={outputs})" if not reconf else
+                               f"ex = fl.FldExporter(separator=',', headers={not headers}, input_values=True, output_values=True); ex.separator = '; '; ex.headers = {headers}; ex.input_values = {inputs}; ex.output_values = {outputs}; fl.settings.decimals = 6"),
                               "try:",
                               ("    ex.write(e, None, np.array(rows, dtype=float))" if via == "write" else
                                f"    ex.write_from_reader(e, None, io.StringIO('\\n'.join(l.format(*[' '.join(repr(float(x)) for x in r) for r in rows]) for l in {layout[via][0]!r})), {layout[via][1]})"),
-                              "finally: numpy.savetxt = orig",
+                              "finally: numpy.savetxt = orig; fl.settings.decimals = 3",
                               "T = captured['X']; exp = []",
+                              f"if {reconf} and (captured['kw'].get('fmt') != '%0.6f' or captured['kw'].get('delimiter') != '; '): verdict(True, 'written with fmt=%r delimiter=%r, in force: %r %r' % (captured['kw'].get('fmt'), captured['kw'].get('delimiter'), '%0.6f', '; '))",
                               "for r in rows:",
                               "    f = build_engine(spec)",
                               "    for iv, x in zip(f.input_variables, r): iv.value = float(x)",
                               "    f.process()",
                               f"    exp.append(({'list(r)' if inputs else '[]'}) + ({'[float(ov.value) for ov in f.output_variables]' if outputs else '[]'}))",
-                              f"hdr = ' '.join(({'[iv.name for iv in e.input_variables]' if inputs else '[]'}) + ({'[ov.name for ov in e.output_variables]' if outputs else '[]'})) if {headers} else ''",
+                              f"hdr = {('; ' if reconf else ' ')!r}.join(({'[iv.name for iv in e.input_variables]' if inputs else '[]'}) + ({'[ov.name for ov in e.output_variables]' if outputs else '[]'})) if {headers} else ''",
                               "bad = None",
                               "if captured['kw'].get('header') != hdr: bad = 'header %r, expected %r' % (captured['kw'].get('header'), hdr)",
                               "elif T.shape[0] != len(rows) or not same(T, exp, 1e-9): bad = 'table %r, a separate process() of each row gives %r' % (T.tolist(), exp)",
@@ -303,13 +307,21 @@ def ob_rows(headers, inputs, outputs, via, label):
         def body():
             e = build(ENGINE)
             inst.NP.savetxt_calls.clear()
-            ex = fl.FldExporter(headers=headers, input_values=inputs, output_values=outputs)
-            if via == "write":
-                ex.write(e, None, sym_array([list(r) for r in X]))
+            import contextlib
+            if reconf:
+                ex = fl.FldExporter(separator=",", headers=not headers, input_values=True, output_values=True)
+                ex.separator, ex.headers, ex.input_values, ex.output_values = "; ", headers, inputs, outputs
+                ctx = fl.settings.context(decimals=6)
             else:
-                lines, skip = layout[via]
-                text = "\n".join(l.format(*[" ".join(str(x) for x in r) for r in X]) for l in lines)
-                ex.write_from_reader(e, None, io.StringIO(text), skip)
+                ex = fl.FldExporter(headers=headers, input_values=inputs, output_values=outputs)
+                ctx = contextlib.nullcontext()
+            with ctx:
+                if via == "write":
+                    ex.write(e, None, sym_array([list(r) for r in X]))
+                else:
+                    lines, skip = layout[via]
+                    text = "\n".join(l.format(*[" ".join(str(x) for x in r) for r in X]) for l in lines)
+                    ex.write_from_reader(e, None, io.StringIO(text), skip)
             T, kw = inst.NP.savetxt_calls[-1]
             exp = []
             for r in X:
@@ -318,7 +330,7 @@ def ob_rows(headers, inputs, outputs, via, label):
                     iv.value = x
                 f.process()
                 exp.append((list(r) if inputs else []) + ([ov.value for ov in f.output_variables] if outputs else []))
-            hdr = " ".join(([iv.name for iv in e.input_variables] if inputs else []) + ([ov.name for ov in e.output_variables] if outputs else [])) if headers else ""
+            hdr = ("; " if reconf else " ").join(([iv.name for iv in e.input_variables] if inputs else []) + ([ov.name for ov in e.output_variables] if outputs else [])) if headers else ""
             return T, kw, exp, hdr
 
         for p in ob.paths(pre, body):
@@ -328,6 +340,9 @@ def ob_rows(headers, inputs, outputs, via, label):
             T, kw, exp, hdr = p.result
             A = core._obj(T)
             ok_shape = A.ndim == 2 and A.shape[0] == N and A.shape[1] == len(exp[0])
+            if reconf and (kw.get("fmt") != "%0.6f" or kw.get("delimiter") != "; "):
+                ob.prove(pre, p, False, f"{label}: written with fmt={kw.get('fmt')!r} delimiter={kw.get('delimiter')!r}; in force: '%0.6f' and '; '", ins, rp)
+                continue
             if not ok_shape or kw.get("header") != hdr:
                 ob.prove(pre, p, False, f"{label}: table shape {A.shape} header {kw.get('header')!r}; expected {N}x{len(exp[0])} header {hdr!r}", ins, rp)
                 continue
@@ -362,4 +377,7 @@ def obligations(tier, seed):
     for via in ("plain", "comments", "skip2"):
         nm = f"rows/reader/{via}"
         obs.append((nm, ob_rows(True, True, True, via, nm)))
+    obs.append(("rows/write/reconfigured", ob_rows(True, True, True, "write", "rows/write/reconfigured", reconf=True)))
+    obs.append(("rows/write/reconfigured-h0o0", ob_rows(False, True, False, "write", "rows/write/reconfigured-h0o0", reconf=True)))
+    obs.append(("rows/reader/reconfigured", ob_rows(True, False, True, "plain", "rows/reader/reconfigured", reconf=True)))
     return obs
